@@ -279,7 +279,8 @@ def run_polygon(c):
     Y_ = [Fr(0)]
     for g in gy:
         Y_.append(Y_[-1] + g * u)
-    rects = [(X_[r[0]], Y_[r[1]], X_[r[2]], Y_[r[3]]) for r in c["rects"]]
+    ox, oy = Fr(c.get("off", [0, 0])[0]) * u, Fr(c.get("off", [0, 0])[1]) * u
+    rects = [(X_[r[0]] + ox, Y_[r[1]] + oy, X_[r[2]] + ox, Y_[r[3]] + oy) for r in c["rects"]]
     poly = trace(rects)
     if not c["collinear"]:
         poly = drop_collinear(poly)
@@ -310,8 +311,10 @@ def run_polygon(c):
                         [tuple(Fr(round(float(v) / float(u) * 64)) for v in r) for r in frects]):
         raise Violation("strop_decomposition: the union of %s is not the polygon built from %s" % (out, [tuple(map(float, r)) for r in rects]),
                         "polygon-union")
-    # loaded as a module it is a single-trunk orthogon with the trunk first
-    doc = {"Modules": {"B": {"area": float(area), "rectangles": [list(r) for r in out]}}, "Nets": []}
+    # loaded as a module it is a single-trunk orthogon with the trunk first (the netlist format wants non-negative
+    # centres: the rectangles are translated back into the positive quadrant for this step)
+    tx, ty = float(max(Fr(0), -ox)), float(max(Fr(0), -oy))
+    doc = {"Modules": {"B": {"area": float(area), "rectangles": [[r[0] + tx, r[1] + ty, r[2], r[3]] for r in out]}}, "Nets": []}
     try:
         nl = Netlist(doc)
     except Exception as e:
@@ -327,6 +330,10 @@ def run_polygon(c):
         cls.append("redundant-vertices")
     if len(out) >= 3:
         cls.append(">=3-rectangles")
+    if any(x < 0 for x, _ in poly):
+        cls.append("negative-coordinates")
+    if any(x == -1 for x, _ in poly):
+        cls.append("vertex-at-x=-1")
     return dict(nt=len(out) >= 2, cls=cls)
 
 
@@ -335,7 +342,8 @@ def polygon_s(draw):
     rects, _ = draw(stog_rects(0, 0, 2, 5, 3, 6))
     mx = max(max(r[2], r[3]) for r in rects)
     gaps = [[draw(st.sampled_from([1, 1, 2, 3, 7])) for _ in range(mx)], [draw(st.sampled_from([1, 1, 2, 5])) for _ in range(mx)]]
-    return dict(unit=draw(st.sampled_from(["1", "0.5", "0.125", "0.1", "0.3", "2.5", "0.01"])), rects=rects, gaps=gaps,
+    off = [draw(st.sampled_from([0, 0, -1, -2, -3, -5, -8, -13, 4])), draw(st.sampled_from([0, 0, -1, -4, 7]))]
+    return dict(unit=draw(st.sampled_from(["1", "1", "0.5", "0.125", "0.1", "0.3", "2.5", "0.01"])), rects=rects, gaps=gaps, off=off,
                 collinear=draw(st.booleans()), reverse=draw(st.booleans()), start=draw(_i(0, 40)), numpy=draw(st.booleans()))
 
 
@@ -346,5 +354,5 @@ def subchecks():
         Sub("random", run_random, strategy=random_grid_s(), n_quick=6000, n_thorough=200000,
             required=("decomposable", "not-decomposable", "ring", "staircase", "two-components", "near-stog", "explicit-sizes")),
         Sub("polygons", run_polygon, strategy=polygon_s(), n_quick=4000, n_thorough=100000,
-            required=("numpy", "points", "cw", "ccw", "redundant-vertices", ">=3-rectangles")),
+            required=("numpy", "points", "cw", "ccw", "redundant-vertices", ">=3-rectangles", "negative-coordinates", "vertex-at-x=-1")),
     ]
